@@ -676,6 +676,17 @@ def c19(run, vc):
             return run.finish()
         s = vc.replay(r["vectors"], "c19_" + cfg.replace(".cfg", ""), tables, profiles="5", feature="rust")
         run.add_replay(s, cfg + " replayed on the pure-Rust backend", r["vectors"], lambda v: True)
+    # honest time-lock openings incl. the ciphertexts a sender can craft from the public building blocks (a
+    # non-canonical alpha, over-long length prefixes): same outcome on both builds
+    r, bad = _tlc_stage(run, vc, "MC_TimeLock", "MC_TimeLock_%s.cfg" % tier, [], timeout=7200)
+    if bad:
+        return run.finish()
+    tv = [v for v in r["vectors"] if v["act"] == "TLDecrypt" and v.get("crafts")]
+    if not tv:
+        raise vc.ToolError("vacuity: no honest time-lock opening with crafted variants")
+    for feat in ("blst", "rust"):
+        s = vc.replay(tv, "c19_tl_" + feat, tables, profiles="5", feature=feat)
+        run.add_replay(s, "honest and sender-crafted time-lock ciphertexts opened on the %s build" % feat, tv, lambda v: True)
     # decoding is deterministic too: every decoder outcome of the Codec model (canonical and non-canonical inputs)
     # on both builds against the same prediction, so a backend-specific divergence shows on one of them
     r, bad = _tlc_stage(run, vc, "MC_Codec", "MC_Codec_%s.cfg" % tier, [("Codec", "Ok"), ("Codec", "Err")], timeout=7200)
